@@ -60,8 +60,11 @@ type Contract struct {
 	Modifies []Clause // expressions naming the cells a call may modify; nil+!Pure => everything reachable
 	ModSet   bool
 	Notes    []string
+	Invokes  []string // function-typed parameters the (assumed) callee calls; last(p) / invoked(p) in its ensures refer to the last such call
 	LoopFrames bool // (pure functions) memory that existed on entry keeps its contents through loops
 	FrameTrusted string // reason why the frame condition is trusted rather than checked syntactically
+	Private  []string // local pointer variables whose pointee is reachable only through them (fresh, never handed on)
+	StableFields []string // expr.field: a single field no function but the allocating one ever assigns
 	Stable   []string // parameters (pointers to structs) whose own cells no callee modifies
 }
 
@@ -311,10 +314,16 @@ func parseContractFile(path string) (*ContractFile, error) {
 			if rest == "" {
 				cur.FrameTrusted = "unspecified"
 			}
+		case "private":
+			cur.Private = append(cur.Private, strings.Fields(rest)...)
+		case "stable-field":
+			cur.StableFields = append(cur.StableFields, strings.Fields(rest)...)
 		case "stable":
 			cur.Stable = append(cur.Stable, strings.Fields(rest)...)
 		case "fresh":
 			cur.Fresh = append(cur.Fresh, strings.Fields(rest)...)
+		case "invokes":
+			cur.Invokes = append(cur.Invokes, strings.Fields(rest)...)
 		case "site":
 			// site Pattern#k as alias
 			fs := strings.Fields(rest)
